@@ -153,6 +153,39 @@ def lexer_regex_spec(world):
     return out
 
 
+def c08_termination_lemma(world):
+    """C08 terminates: the step clause of the work-list loop of compile (discharged from the code) says that an
+    iteration either leaves the set of looked-up names S alone and shortens the work list, or looks up a name x of
+    the finite universe U that is not in S and makes S' = S + {x}.  This lemma (finite sets with cardinality, cvc5)
+    closes the argument: in the second case |U - S'| < |U - S| and |U - S'| >= 0, so the pair
+    (|U - fetched|, len(mibsToParse)) decreases lexicographically in N x N on every iteration."""
+    from .cvc5_backend import cvc5_check
+    out = []
+    head = ('(declare-const U (Set String))\n(declare-const S (Set String))\n(declare-const S2 (Set String))\n'
+            '(declare-const x String)\n')
+    hyp = ('(assert (set.member x U))\n(assert (not (set.member x S)))\n'
+           '(assert (= S2 (set.union S (set.singleton x))))\n')
+    goal = ('(assert (not (and (< (set.card (set.minus U S2)) (set.card (set.minus U S)))\n'
+            '                  (>= (set.card (set.minus U S2)) 0))))\n')
+    t0 = time.time()
+    r, _ = cvc5_check(head + hyp + goal + '(check-sat)\n', 20000)
+    d = _ob('lemma.C08_terminates.a_new_name_of_the_universe_shrinks_the_remaining_set', r == 'unsat',
+            {'clause': 'x in U and x not in S and S2 = S + {x}  =>  0 <= |U - S2| < |U - S|', 'solver': r}, t0, 'cvc5')
+    if r != 'unsat':
+        d['verdict'] = 'unknown' if r == 'unknown' else 'refuted'
+    out.append(d)
+    # vacuity: the hypotheses are satisfiable, and without  x in U  the conclusion does not follow
+    t0 = time.time()
+    r1, _ = cvc5_check(head + hyp + '(check-sat)\n', 20000)
+    r2, _ = cvc5_check(head + hyp.replace('(assert (set.member x U))\n', '') + goal + '(check-sat)\n', 20000)
+    d = _ob('lemma.C08_terminates.not_vacuous', r1 == 'sat' and r2 == 'sat',
+            {'clause': 'hypotheses satisfiable; conclusion fails without x in U', 'solver': [r1, r2]}, t0, 'cvc5')
+    if not (r1 == 'sat' and r2 == 'sat'):
+        d['verdict'] = 'error'
+    out.append(d)
+    return out
+
+
 def run(pid, tier, seed, world):
     out = []
     try:
@@ -161,6 +194,8 @@ def run(pid, tier, seed, world):
         if pid in ('C11', 'C02', 'C05'):
             out += [o for o in lexer_regex_spec(world)
                     if pid != 'C05' or 'NUMBER' in o['name'] or 'STRING' in o['name']]
+        if pid == 'C08':
+            out += c08_termination_lemma(world)
         if pid == 'C18':
             from .bounded.runner import obligations as bounded_obligations
             out += bounded_obligations(
